@@ -195,6 +195,17 @@ class Runner(object):
       assert r.ok, r.error
       r = doc.apply([["BulkRemoveRecord", "T", extra]])
       assert r.ok, r.error
+    elif how == "freed" and ids:
+      # rows 1..top, the rows above the second-largest wanted id removed again (freed slots at the end of the id
+      # column), then the largest wanted id added EXPLICITLY into a freed slot that is not next to the last row
+      top = max(ids)
+      lo = [i for i in ids if i != top]
+      r = doc.apply([["BulkAddRecord", "T", list(range(1, top + 1)), {"a": [10 * i for i in range(1, top + 1)]}]])
+      assert r.ok, r.error
+      r = doc.apply([["BulkRemoveRecord", "T", [i for i in range(1, top + 1) if i not in lo]]])
+      assert r.ok, r.error
+      r = doc.apply([["AddRecord", "T", top, {"a": 10 * top}]])
+      assert r.ok, r.error
     elif how == "replace":
       r = doc.apply([["ReplaceTableData", "T", list(ids), {"a": [10 * i for i in ids]}]])
       assert r.ok, r.error
@@ -356,6 +367,21 @@ def random_histories(ck, run):
       run.base = snap_after
 
 
+def freed_slots(ck, run):
+  """Fixed family, in full on every tier: the table's largest row was added EXPLICITLY into a slot freed earlier
+  (rows removed at the end of the id column, not adjacent to the last remaining row); then every kind of request
+  with automatic / temporary ids.  Automatic ids must lie above every existing id, whatever the allocator cached."""
+  for st in ([1, 2, 3, 6], [1, 4], [3], [1, 2, 5], [2, 7]):
+    run.set_state(st, "freed")
+    top = max(st)
+    for kind, req in (("AddRecord", [None]), ("AddRecord", [-1]), ("BulkAddRecord", [None]),
+                      ("BulkAddRecord", [None, -1, None]), ("BulkAddRecord", [None, top + 3]),
+                      ("BulkAddRecord", [-1, -2]), ("BulkAddRecord", [top + 2, None]),
+                      ("ReplaceTableData", [None, None])):
+      run.request(kind, req)
+      ck.count("freed_slot_requests")
+
+
 def boundary(ck, run):
   """1,000,000 itself is the largest accepted id.  Run LAST on the shared document: the id column grows
   to that size and every later next_row_id() would scan it."""
@@ -424,6 +450,7 @@ def run(ck):
     res = run_.request(kind, req)
     ck.count("witness_reproduced" if res.ok else "witness_no_longer_accepted")
   exhaustive(ck, run_)
+  freed_slots(ck, run_)
   random_histories(ck, run_)
   cases = run_.cases + boundary(ck, run_)
   compare_with_model(ck, cases)
